@@ -329,6 +329,9 @@ func c13Exec(op string) string {
 	if f[0] == "csign" {
 		return execCsign(f)
 	}
+	if f[0] == "vsign" {
+		return execVsign(f)
+	}
 	panic("harness: unknown op " + f[0])
 }
 
@@ -359,8 +362,9 @@ func csignOps(r *Rng, count int, emit func(string)) {
 }
 
 func c13Gen(r *Rng, tier string, emit func(string)) {
-	n := 800
+	n := 600
 	csignOps(r, map[bool]int{false: 150, true: 1500}[tier == "thorough"], emit)
+	vsignOps(r, map[bool]int{false: 300, true: 3000}[tier == "thorough"], emit)
 	if tier == "thorough" {
 		n = 6000
 	}
@@ -482,5 +486,5 @@ func c13Gen(r *Rng, tier string, emit func(string)) {
 }
 
 func main() {
-	Main(&Prop{Gen: c13Gen, Exec: c13Exec})
+	Main(&Prop{Gen: c13Gen, Exec: c13Exec, Close: closeWorld})
 }
